@@ -161,6 +161,11 @@ class Translator:
                     return self.tr(t[2][0])
                 if f in ("builtins.int",) and len(t[2]) == 1 and not t[3]:
                     return PyInt(self.tr(t[2][0]))
+                if f == "builtins.len" and len(t[2]) == 1 and t[2][0][0] == "call" and t[2][0][1] == "numpy.arange" and 1 <= len(t[2][0][2]) <= 3 and not t[2][0][3]:
+                    # number of points of arange(a, b, s): ceil((b - a) / s)
+                    ar = [self.tr(x) for x in t[2][0][2]]
+                    a0, b0, s0 = (sp.Integer(0), ar[0], sp.Integer(1)) if len(ar) == 1 else ((ar[0], ar[1], sp.Integer(1)) if len(ar) == 2 else ar)
+                    return sp.ceiling((b0 - a0) / s0)
                 if f in ("builtins.round",) and len(t[2]) == 1 and not t[3]:
                     return PyRound(self.tr(t[2][0]))
                 if f in ("math.floor", "numpy.floor") and len(t[2]) == 1 and not t[3]:
@@ -284,6 +289,19 @@ def decide_equal(a: sp.Expr, b: sp.Expr, trig: bool = False) -> Tuple[Optional[b
         only_a, only_b = sorted(oa - ob, key=str), sorted(ob - oa, key=str)
         pairs = align_opaque(only_a, only_b)
         if pairs is None:
+            # rounding to a fixed number of decimals wrapped around a real quantity: if the sides agree without the rounding,
+            # they differ with it for every value that has more decimals than kept
+            rounders = [x for x in only_a if isinstance(x, sp.core.function.AppliedUndef) and x.func.__name__ in ("numpy.round", "numpy.around", "builtins.round", "numpy.round_")
+                        and len(x.args) == 2 and x.args[1].is_Integer and x.args[1] >= 0 and not x.args[0].is_integer]
+            if rounders and not only_b and len(rounders) == len(only_a):
+                a2 = a
+                for x in rounders:
+                    a2 = a2.subs(x, x.args[0])
+                ok2, _how = decide_equal(a2, b, trig)
+                if ok2 is True:
+                    k = int(rounders[0].args[1])
+                    return False, (f"{str(rounders[0])[:80]} keeps {k} decimals of a real quantity: equal to the definition only for values with at most {k} decimals "
+                                   f"(e.g. the value {sp.Rational(25, 10 ** (k + 1))} becomes {round(float(sp.Rational(25, 10 ** (k + 1))), k)})")
             return None, (f"sides involve different uninterpreted constructs (code only: {[str(x)[:70] for x in only_a[:2]]}; "
                           f"reference only: {[str(x)[:70] for x in only_b[:2]]})")
         # every construct that occurs on one side only is the same accessor / reduction as one on the other side applied at a
@@ -302,7 +320,10 @@ def decide_equal(a: sp.Expr, b: sp.Expr, trig: bool = False) -> Tuple[Optional[b
         try:
             val = d.subs(sub)
             for i, fn in enumerate(funcs):
-                val = val.subs(fn.subs(sub), pts[(i + 5) % len(pts)])
+                tgt = fn.subs(sub)
+                if tgt.is_number:
+                    continue          # an interpreted function that evaluated by itself: replacing its VALUE would rewrite unrelated numbers
+                val = val.subs(tgt, pts[(i + 5) % len(pts)])
             val = sp.simplify(val)
             if val.free_symbols or val.atoms(sp.Function) - val.atoms(sp.sin, sp.cos, sp.exp, sp.log, sp.Abs, sp.conjugate, sp.re, sp.im):
                 continue
@@ -312,6 +333,30 @@ def decide_equal(a: sp.Expr, b: sp.Expr, trig: bool = False) -> Tuple[Optional[b
                     return False, "differs at " + ", ".join(f"{k}={v}" for k, v in list(sub.items())[:8]) + f": lhs-rhs={sp.nsimplify(val) if val.is_number else val}"
         except Exception:
             continue
+    # expressions with integer parts (int / floor / ceil / round) agree at generic points and can differ exactly where the
+    # argument of an integer part is a whole number: solve for such a point
+    ints = [x for x in d.atoms(sp.Function) if isinstance(x, (PyInt, PyRound, sp.floor, sp.ceiling)) and x.args and x.args[0].free_symbols]
+    for x in sorted(ints, key=str)[:4]:
+        g = x.args[0]
+        for s_ in sorted(g.free_symbols, key=lambda y: y.name):
+            others = [y for y in syms if y != s_]
+            for pts in _POINTS[:2]:
+                sub = {y: pts[i % len(pts)] for i, y in enumerate(others)}
+                for k in (2, 3):
+                    try:
+                        sol = sp.solve(sp.Eq(g.subs(sub), k), s_)
+                    except Exception:
+                        sol = []
+                    for v in sol[:1]:
+                        if not (v.is_number and v.is_real and (v > 0 or not s_.is_positive)):
+                            continue
+                        try:
+                            val = sp.simplify(d.subs(sub).subs(s_, v))
+                        except Exception:
+                            continue
+                        if val.is_number and not val.free_symbols and not val.atoms(sp.core.function.AppliedUndef) and val != 0:
+                            full = dict(sub); full[s_] = v
+                            return False, "differs at " + ", ".join(f"{a_}={b_}" for a_, b_ in list(full.items())[:8]) + f" (where {str(g)[:50]} is the whole number {k}): lhs-rhs={val}"
     return None, f"no normal form reached and no separating rational point; residue {str(s)[:160]}"
 
 
